@@ -155,9 +155,48 @@ theorem C17_run_spacing (cs : List InvCall) : ∀ (i : Invalidator) (t : Time),
             omega
         · exact List.Pairwise.cons hrest ihB
 
+/-- **C17_accepted_when_elapsed** — the other half of "at most once per SkipInterval": the limiter never rejects
+    spuriously. The first call, and every call whose check comes at least SkipInterval after the last accepted stamp,
+    is accepted, runs every callback once in registration order and stamps `tStamp`. -/
+theorem C17_accepted_when_elapsed (i : Invalidator) (ncb : Nat) (hn : ncb ≠ 0) (tc ts : Time)
+    (hel : ∀ last, i.lastRun = some last → i.effSkip ≤ tc - last) :
+    (i.invalidate ncb tc ts).2 = .ran (List.range ncb) ∧ (i.invalidate ncb tc ts).1.lastRun = some ts := by
+  have h := C17_accept_reject i ncb hn tc ts
+  rw [h.1, h.2.1]
+  cases hl : i.lastRun with
+  | none => exact ⟨rfl, rfl⟩
+  | some last =>
+    have hge := hel last hl
+    have hlt : ¬ (tc - last < i.effSkip) := by omega
+    simp [hlt]
+
+/-- A rejected call is always explained by an accepted one less than SkipInterval before it: there is a stamp `last`
+    with `tCheck − last < SkipInterval`. (No rejection on a fresh invalidator, none after the interval.) -/
+theorem C17_rejected_only_within_interval (i : Invalidator) (ncb : Nat) (tc ts : Time)
+    (hrej : (i.invalidate ncb tc ts).2 = .already) :
+    ∃ last, i.lastRun = some last ∧ tc - last < i.effSkip := by
+  by_cases hn : ncb = 0
+  · subst hn; simp [C17_nothing_to_invalidate] at hrej
+  · have h := C17_accept_reject i ncb hn tc ts
+    rw [h.1] at hrej
+    cases hl : i.lastRun with
+    | none => simp [hl] at hrej
+    | some last =>
+      refine ⟨last, rfl, ?_⟩
+      simp only [hl] at hrej
+      by_cases hlt : tc - last < i.effSkip
+      · exact hlt
+      · simp [hlt] at hrej
+
 /-! ### Non-vacuity: three calls, the middle one too early -/
 example :
     let i : Invalidator := { skipInterval := 100 }
     (i.run [⟨2, 1000, 1001⟩, ⟨2, 1050, 1051⟩, ⟨2, 1101, 1102⟩]).2 = [.ran [0, 1], .already, .ran [0, 1]] := by decide
+
+/-- the hypotheses of `C17_accepted_when_elapsed` / `C17_rejected_only_within_interval` are met by concrete states:
+    exactly at the boundary (`tCheck − last = SkipInterval`) the call is accepted, one nanosecond earlier it is not. -/
+example :
+    let i : Invalidator := { lastRun := some 1001, skipInterval := 100 }
+    (i.invalidate 2 1101 1102).2 = .ran [0, 1] ∧ (i.invalidate 2 1100 1102).2 = .already := by decide
 
 end Cache
